@@ -321,6 +321,10 @@ impl RBig {
 
         let (trunc, fract) = self.clone().split_at_point();
         let up = if self.denominator() <= limit {
+            if limit.is_one() {
+                // the Farey sequence of order 1 consists of the integers
+                return self + Self::ONE;
+            }
             // If the denominator of the number is already small enough, increase the number a little
             // bit before finding the farey neighbors. Note that the distance between two adjacent
             // numbers in a farey sequence is at least limit^-2, so we just increase limit^-2
@@ -357,6 +361,10 @@ impl RBig {
         // similar to next_up()
         let (trunc, fract) = self.clone().split_at_point();
         let down = if self.denominator() <= limit {
+            if limit.is_one() {
+                // the Farey sequence of order 1 consists of the integers
+                return self - Self::ONE;
+            }
             let target = fract
                 - Self(Repr {
                     numerator: IBig::ONE,
